@@ -74,7 +74,7 @@ func execCase(c core.Case) []string {
 	}()
 	getP := func() *pcase {
 		if p == nil {
-			cd, err := buildChain("-", nil)
+			cd, err := buildChain("-", nil, 1)
 			if err != nil {
 				panic(err)
 			}
@@ -96,7 +96,16 @@ func execCase(c core.Case) []string {
 				out = append(out, "bad-op")
 				break
 			}
-			cd, err := buildChain(a["txs"], txs)
+			ih := 1
+			if s, has := a["ih"]; has {
+				var okih bool
+				ih, okih = natTok(s)
+				if !okih || ih < 1 || ih > 1000 {
+					out = append(out, "bad-op")
+					break
+				}
+			}
+			cd, err := buildChain(a["txs"], txs, int64(ih))
 			if err != nil {
 				out = append(out, "chain-error:"+trunc(err.Error(), 200))
 				break
@@ -275,7 +284,15 @@ func execNode(a map[string]string) string {
 	if ver != "v0" && ver != "v1" {
 		return "bad-op"
 	}
-	r := runNodeCase(blocks, fails, ver, txs, 20)
+	ih := 1
+	if s, has := a["ih"]; has {
+		var okih bool
+		ih, okih = natTok(s)
+		if !okih || ih < 1 || ih > 1000 {
+			return "bad-op"
+		}
+	}
+	r := runNodeCase(blocks, fails, ver, txs, 20, ih)
 	statMu.Lock()
 	for _, l := range r.Trace {
 		if strings.HasPrefix(l, "pre ") {
@@ -315,7 +332,11 @@ func execNode(a map[string]string) string {
 			ap, _ := strconv.Atoi(t["app"])
 			st, _ := strconv.Atoi(t["store"])
 			sa, _ := strconv.Atoi(t["state"])
-			if !(sa <= st && st <= sa+1 && sa <= ap && ap <= st) {
+			nx := sa + 1
+			if sa == 0 {
+				nx = ih
+			}
+			if !((st == sa || st == nx) && (ap == sa || ap == st)) {
 				hs = "bad-crash-state:" + strings.ReplaceAll(l, " ", "_")
 			}
 		}
@@ -323,10 +344,10 @@ func execNode(a map[string]string) string {
 	if nPost == 0 {
 		hs = "no-handshake-completed"
 	}
-	committed, bad := journalCheck(r.Journal, func(h int64) ([]int, bool) {
+	committed, bad := journalCheckIH(r.Journal, func(h int64) ([]int, bool) {
 		t, ok := r.Chain[h]
 		return t, ok
-	})
+	}, int64(ih))
 	wf := "1"
 	if bad != "" {
 		wf = "0:" + strings.ReplaceAll(trunc(bad, 200), " ", "_")
@@ -342,7 +363,16 @@ func preShape(l string) string {
 	ap, _ := strconv.Atoi(t["app"])
 	st, _ := strconv.Atoi(t["store"])
 	sa, _ := strconv.Atoi(t["state"])
-	return fmt.Sprintf("store=state%+d,app=state%+d", st-sa, ap-sa)
+	rel := func(x int) string {
+		switch {
+		case x == sa:
+			return "state"
+		case x == st:
+			return "next"
+		}
+		return "other"
+	}
+	return fmt.Sprintf("store=%s,app=%s", rel(st), rel(ap))
 }
 
 // ---------------------------------------------------------------------------------------------
@@ -363,6 +393,7 @@ func oracle(c core.Case, out []string) []core.Finding {
 	add := func(fp, desc string) { fs = append(fs, core.Finding{Fingerprint: fp, Desc: desc}) }
 	hostile := isHostile(c)
 	var chain [][]int
+	oih := int64(1)
 	var journal []string
 	lastUp := false
 	mpver := ""
@@ -390,6 +421,11 @@ func oracle(c core.Case, out []string) []core.Finding {
 		case "chain":
 			if o == "ok" {
 				chain, _ = parseChain(kv(op))
+				oih = 1
+				if s, has := kv(op)["ih"]; has {
+					v, _ := natTok(s)
+					oih = int64(v)
+				}
 				journal = nil
 				lastUp = false
 			}
@@ -420,12 +456,12 @@ func oracle(c core.Case, out []string) []core.Finding {
 			if hostile {
 				break
 			}
-			_, bad := journalCheck(journal, func(h int64) ([]int, bool) {
-				if h < 1 || int(h) > len(chain) {
+			_, bad := journalCheckIH(journal, func(h int64) ([]int, bool) {
+				if h < oih || int(h-oih) >= len(chain) {
 					return nil, false
 				}
-				return chain[h-1], true
-			})
+				return chain[h-oih], true
+			}, oih)
 			if bad != "" {
 				add("journal."+journalFingerprint(bad), "application journal ill-formed: "+bad)
 			}
@@ -496,6 +532,10 @@ func oracle(c core.Case, out []string) []core.Finding {
 				break
 			}
 			n, _ := strconv.Atoi(kv(op)["blocks"])
+			if s, has := kv(op)["ih"]; has {
+				v, _ := strconv.Atoi(s)
+				n += v - 1 // height of the last block to commit
+			}
 			if t["wf"] != "1" {
 				add("node.journal."+journalFingerprint(t["wf"]), "real node, journal ill-formed: "+o)
 			}
